@@ -292,6 +292,61 @@ class Resolver:
             out[m.key] = m
         return list(out.values())
 
+    def closed_name(self, fi, e, depth=0):
+        """True when expression `e` (the name argument of a getattr) can only take string values written in the
+        source: a constant, or a local every definition of which iterates / indexes / .get()s a literal table of the
+        class or module (or another such local).  Parameters and anything computed are open."""
+        if depth > 5 or e is None:
+            return False
+        if isinstance(e, ast.Constant):
+            return isinstance(e.value, str) or e.value is None
+        if isinstance(e, ast.Name):
+            if e.id in fi.params():
+                return False
+            defs = self._local_defs(fi, e.id)
+            if defs:
+                return all(self.closed_name(fi, d, depth + 1) for d in defs)
+            lit = self._table_literal(fi, e.id)
+            return lit is not None and self._literal_closed(lit)
+        if isinstance(e, ast.Attribute) and isinstance(e.value, ast.Name) and e.value.id in ("self", "cls"):
+            lit = fi.cls.assigns.get(e.attr) if fi.cls is not None else None
+            return lit is not None and self._literal_closed(lit)
+        if isinstance(e, ast.Subscript):
+            return self.closed_name(fi, e.value, depth + 1)
+        if isinstance(e, ast.Call) and isinstance(e.func, ast.Attribute) and e.func.attr in ("get", "items", "values", "keys"):
+            return self.closed_name(fi, e.func.value, depth + 1) and all(self.closed_name(fi, a, depth + 1) for a in e.args[1:])
+        if isinstance(e, (ast.Tuple, ast.List, ast.Set)):
+            return self._literal_closed(e)
+        if isinstance(e, ast.Dict):
+            return self._literal_closed(e)
+        if isinstance(e, ast.IfExp):
+            return self.closed_name(fi, e.body, depth + 1) and self.closed_name(fi, e.orelse, depth + 1)
+        return False
+
+    def _table_literal(self, fi, name):
+        if fi.cls is not None and name in fi.cls.assigns:
+            return fi.cls.assigns[name]
+        for st in fi.module.tree.body:
+            if isinstance(st, ast.Assign) and any(isinstance(t, ast.Name) and t.id == name for t in st.targets):
+                return st.value
+            if isinstance(st, ast.AnnAssign) and isinstance(st.target, ast.Name) and st.target.id == name and st.value is not None:
+                return st.value
+        return None
+
+    def _literal_closed(self, lit):
+        """a display (tuple/list/set/dict, nested) whose leaves are constants, enum-style dotted names or method references"""
+        if isinstance(lit, ast.Constant):
+            return True
+        if isinstance(lit, (ast.Tuple, ast.List, ast.Set)):
+            return all(self._literal_closed(x) for x in lit.elts)
+        if isinstance(lit, ast.Dict):
+            return all(k is not None and self._literal_closed(k) and self._literal_closed(v) for k, v in zip(lit.keys, lit.values))
+        if isinstance(lit, (ast.Name, ast.Attribute)):
+            return True
+        if isinstance(lit, ast.BinOp) and isinstance(lit.op, ast.Add):
+            return self._literal_closed(lit.left) and self._literal_closed(lit.right)
+        return False
+
     def _local_defs(self, fi, name):
         key = (fi.key, name)
         memo = self.__dict__.setdefault("_ldefs", {})
@@ -313,7 +368,7 @@ class Resolver:
     def _leaves(self, fi, e, depth, busy):
         """methods of fi.cls that expression `e` may denote (as a bound/unbound method or by name)"""
         cls = fi.cls
-        if depth > 6 or e is None:
+        if depth > 14 or e is None:
             return []
         out = []
         def method(name):
